@@ -44,8 +44,9 @@ RULE = ("progen func/arith/scf/cf programs over i1,i8,i16,i32,i64,index,f32,f64 
         "vt.refsem of the stage input and output agree on 6 boundary+generated input vectors "
         "(refsem.compare_results: values bit-exact with NaN==NaN, ordered effect logs equal; runs whose input "
         "program is POISON/UB/out of fuel are excluded and counted). A semantic difference is attributed to the "
-        "first pure op whose backward slice ('cone'), extracted into its own function, is already mis-transformed "
-        "by the same pass; otherwise to the op kinds the pass removed. Non-trivial: some stage changed the "
+        "first pure op whose backward slice ('cone'), extracted into its own function (leaves as arguments, or closed "
+        "with the values observed in the failing run), is already mis-transformed by the same pass; otherwise to a "
+        "pair of same-kind ops the pass merged, otherwise to the op kinds the pass removed. Non-trivial: some stage changed the "
         "canonical form (vt.canon) of the program and at least one input was compared (not excluded).")
 ASSUMPTIONS = ["vt.refsem implements the MLIR arith/scf/cf/func/memref semantics (self-test table run once per process); "
                "index is evaluated at 64 bits",
@@ -576,6 +577,10 @@ def check_pipeline(h, recipe, subj: Subject, base_results, pipe, label):
             err = apply_pass(pname, work)
         except PassTimeout:
             h.inconclusive("pass_timeout:" + pname)
+            if not h._shrinking and len(h.notes) < 3:
+                import json
+                h.notes.append(f"{pname} exceeded {PASS_CPU_S:.0f} s CPU on recipe "
+                               + json.dumps(one, sort_keys=True)[:3000])
             return changed_any, compared
         if err is not None:
             h.mismatch({"check": "pass_raises", "pass": pname, "exc": type(err).__name__, "site": exc_site(err)},
